@@ -58,7 +58,14 @@ def state_fp(sim, detail=False):
 class Capture(Handler):
     def __init__(self):
         self.steps = []
+        self.off_shift_dispatch = []
     def handle(self, reports, runner_payload):
+        sim = runner_payload.s
+        for vid, ins in sim.applied_instructions.items():
+            v = sim.vehicles.get(vid)
+            if v is not None and type(ins).__name__ == 'DispatchTripInstruction' and type(v.driver_state).__name__ == 'HumanUnavailable':
+                self.off_shift_dispatch.append({'step': len(self.steps), 'time': int(sim.sim_time) - int(sim.sim_timestep_duration_seconds),
+                                                'vehicle': vid, 'request': ins.request_id})
         def norm(k, v):
             # set-valued fields are reported as lists in set order (Membership.to_json): their print order may differ (C01)
             if 'membership' in k and isinstance(v, (list, tuple)):
@@ -150,6 +157,8 @@ def main():
             out['final']['requests_count'] = h.stats.requests
             out['final']['cancelled_count'] = h.stats.cancelled_requests
     out['timeout'] = int(cfg.sim.request_cancel_time_seconds)
+    out['off_shift_dispatch'] = cap.off_shift_dispatch
+    out['human_drivers'] = sum(1 for v in rp.s.vehicles.values() if 'Human' in type(v.driver_state).__name__)
     if a.detail:
         out['detail'] = details
     print(json.dumps(out, default=str))
